@@ -73,7 +73,8 @@ fn rot_gens_q<T: Tier>() -> Vec<[T; 4]> {
 }
 fn scales<T: Tier>(float: bool) -> Vec<T> {
     if float {
-        [0.0, 1e-5, -1e-5, 0.3, -0.3, 2.0, -2.0, 1e3].iter().map(|x| num_traits::cast::<f64, T>(*x).unwrap()).collect()
+        // 1.01e-6: just above the 1e-6 below which the statement leaves the inverse open; -0.0: a zero scale factor too
+        [0.0, 1e-5, -1e-5, 0.3, -0.3, 2.0, -2.0, 1e3, 1.01e-6, -0.0].iter().map(|x| num_traits::cast::<f64, T>(*x).unwrap()).collect()
     } else {
         vec![T::int(1), T::int(2), T::q(1, 2), T::q(-3, 2), T::int(0)]
     }
@@ -593,8 +594,14 @@ fn invariant<T: Tier, C: Cfg<T>>(ctx: &mut Ctx, s: &C::Tr, gens: &[C::Tr]) {
         Some(h) => h,
         None => return,
     };
+    // Option-shaped clauses first: they do not depend on conditioning
+    if affine(&hs) {
+        ctx.check(C::inv_tv(s, ps[0]).is_some(), &key(&format!("{}/inverse_vector/some-when-invertible", C::NAME)), || "inverse_transform_vector() is None for an invertible transform".to_string());
+    }
+    // ill-conditioned: the error bound of the reference inverse is no longer small against the inverse itself
     let worst = model::mflat(hi).iter().map(|x| T::tol(*x, slack)).fold(0.0, f64::max);
-    if worst > 1e-3 {
+    let size = model::mflat(hi).iter().map(|x| x.approx().abs()).fold(0.0, f64::max);
+    if worst > 0.05 * size.max(1e-300) {
         ctx.skip("ill-conditioned (float tier)");
         return;
     }
